@@ -19,6 +19,24 @@ type Env struct {
 	entry *Snapshot // entry of the function under verification (for fresh())
 	bound map[string]bool
 	oldVars map[string]Val // entry values of (reassigned) parameters, visible inside old()
+	patc    *patCollector  // collects default triggers while a quantifier body is translated
+}
+
+// patCollector gathers candidate triggers for a quantifier: reads of the CURRENT state indexed
+// exactly by a bound variable. Using only those as triggers makes frame-shaped facts fire from
+// new-state terms towards old-state terms, never the other way round.
+type patCollector struct {
+	bound map[string]bool
+	pats  []string
+	seen  map[string]bool
+}
+
+func (e *Env) notePattern(idx, t string) {
+	if e.patc == nil || e.inOld || !e.patc.bound[idx] || e.patc.seen[t] {
+		return
+	}
+	e.patc.seen[t] = true
+	e.patc.pats = append(e.patc.pats, t)
 }
 
 type specErr string
@@ -367,7 +385,11 @@ func (e *Env) selectField(base Val, name string, ex Expr) Val {
 		if f.Name() != name {
 			continue
 		}
-		return e.x.fieldRead(e.heap, base.T, tn, f)
+		r := e.x.fieldRead(e.heap, base.T, tn, f)
+		if strings.HasPrefix(r.T, "(select ") {
+			e.notePattern(base.T, r.T)
+		}
+		return r
 	}
 	e.fail("no field %s in type %s (%s)", name, tn, exprString(ex))
 	return Val{}
@@ -453,7 +475,9 @@ func (e *Env) index(base, idx Val, ex Expr) Val {
 				et = a.Elem()
 			}
 		}
-		return term(sel(base.T, idx.T), es, et)
+		r := sel(base.T, idx.T)
+		e.notePattern(idx.T, r)
+		return term(r, es, et)
 	}
 	// pointer to array (embedded array field)
 	if base.Ty != nil {
@@ -467,7 +491,9 @@ func (e *Env) index(base, idx Val, ex Expr) Val {
 		if m, ok := base.Ty.Underlying().(*types.Map); ok {
 			es := sortOf(m.Elem())
 			h := e.heap(mapName(m.Elem()), "(Array Int "+es+")")
-			return term(sel(sel(h, base.T), idx.T), es, m.Elem())
+			r := sel(sel(h, base.T), idx.T)
+			e.notePattern(idx.T, r)
+			return term(r, es, m.Elem())
 		}
 	}
 	e.fail("cannot index %s (sort %s)", exprString(ex), base.S)
@@ -521,14 +547,36 @@ func (e *Env) quant(q *EQuant) Val {
 		} else {
 			b = and(rng, body.T)
 		}
+		b = e.withPatterns(ne, q, b)
 		return boolv("(" + kw + " (" + strings.Join(decls, " ") + ") " + b + ")")
 	}
 	ne := e.sub(vars)
+	pc := &patCollector{bound: map[string]bool{}, seen: map[string]bool{}}
+	for _, n := range names {
+		pc.bound[n] = true
+	}
+	if len(names) == 1 {
+		ne.patc = pc
+	}
 	body := ne.eval(q.Body)
 	if body.S != SBool {
 		e.fail("quantifier body not boolean")
 	}
 	b := body.T
+	if len(q.Pats) == 0 && len(pc.pats) > 0 && len(pc.pats) <= 6 && q.All {
+		var sb strings.Builder
+		sb.WriteString("(! " + b)
+		for _, pt := range pc.pats {
+			sb.WriteString(" :pattern (" + pt + ")")
+		}
+		sb.WriteString(")")
+		defer func() {}()
+		autoPat := sb.String()
+		if q.Lo == nil {
+			kw := "forall"
+			return boolv("(" + kw + " (" + strings.Join(decls, " ") + ") " + autoPat + ")")
+		}
+	}
 	if q.Lo != nil {
 		lo := ne.eval(q.Lo)
 		hi := ne.eval(q.Hi)
@@ -543,7 +591,29 @@ func (e *Env) quant(q *EQuant) Val {
 	if q.All {
 		kw = "forall"
 	}
+	b = e.withPatterns(ne, q, b)
 	return boolv("(" + kw + " (" + strings.Join(decls, " ") + ") " + b + ")")
+}
+
+// withPatterns attaches the user-given triggers to a quantifier body.
+func (e *Env) withPatterns(ne *Env, q *EQuant, body string) string {
+	if len(q.Pats) == 0 {
+		return body
+	}
+	var sb strings.Builder
+	sb.WriteString("(! " + body)
+	for _, grp := range q.Pats {
+		sb.WriteString(" :pattern (")
+		for k, pe := range grp {
+			if k > 0 {
+				sb.WriteString(" ")
+			}
+			sb.WriteString(ne.eval(pe).T)
+		}
+		sb.WriteString(")")
+	}
+	sb.WriteString(")")
+	return sb.String()
 }
 
 func (x *Exec) freshBound(n string) string {
@@ -625,10 +695,23 @@ func (e *Env) call(c *ECall) Val {
 			e.fail("seen() outside a range-over-map loop")
 		}
 		return boolv(sel(sel(e.heap("iter.seen", "(Array Int Bool)"), it.T), arg(0).T))
+	case "upd":
+		// upd(a, i, v): array a with index i set to v
+		a, i, v := arg(0), asTerm(arg(1)), asTerm(arg(2))
+		return term(store(a.T, i.T, v.T), a.S, a.Ty)
+	case "ord":
+		// ord(key): order position of a key (byte slice) under the collection's comparator
+		a := arg(0)
+		if a.S != SSlice {
+			e.fail("ord() of non-slice")
+		}
+		return intv(app("ordOf", sel(e.heap("mem.byte", "(Array Int Int)"), app("sarr", a.T)), app("soff", a.T), app("slen", a.T)))
 	case "has":
 		// has(m, k): key k is present in map m
 		m, k := arg(0), arg(1)
-		return boolv(sel(sel(e.heap("map.dom", "(Array Int Bool)"), m.T), k.T))
+		r := sel(sel(e.heap("map.dom", "(Array Int Bool)"), m.T), k.T)
+		e.notePattern(k.T, r)
+		return boolv(r)
 	case "be16":
 		return intv(e.beValue(arg(0), arg(1).T, 2))
 	case "be32":
